@@ -203,7 +203,18 @@ theorem C01_targets (hfixed : cfg.emptySeqMsg = none) (m : Mode) (t : Tgt) (h : 
   | assign => simp [beq_assign, acceptT t .assign (by decide) h (Or.inr hfixed)]
   | del => simp [beq_del, acceptT t .del (by decide) h (Or.inr hfixed)]
 
-/-- COUNTEREXAMPLE (genuine defect, known finding `empty-sequence-target`): while `_not_assignable` has its emptiness test,
+/-- C01's target clause AT FULL STRENGTH, UNCONDITIONALLY, for /repo's current source (the emptiness test was removed in /repo
+commit 7cb36ca, finding `empty-sequence-target`): every assignment / augmented-assignment / `del` target CPython allows — empty
+`()` / `[]` included, any nesting — passes xonsh's `check_contexts`.  The hypothesis of `C01_targets` is discharged from the
+translated table; should the test come back, this theorem stops checking and the check reports it. -/
+theorem C01_targets_full (m : Mode) (t : Tgt) (h : cpyValid m t = true) : xonshAccepts cfg m t = true :=
+  C01_targets (by decide) m t h
+
+example : xonshAccepts cfg .assign (.tuple []) = true ∧ xonshAccepts cfg .assign (.list []) = true ∧ xonshAccepts cfg .del (.tuple []) = true
+    ∧ xonshAccepts cfg .assign (.tuple [.leaf [sName], .tuple []]) = true := by decide +kernel
+
+/-- COUNTEREXAMPLE (the defect of known finding `empty-sequence-target`, repaired in /repo 7cb36ca — with the current source the
+hypothesis is false and this is vacuous; it documents what the test did): while `_not_assignable` has its emptiness test,
 `() = x`, `[] = x`, `del ()`, `del []` — all valid Python — are refused with that message, at any depth (`a, () = x`). -/
 theorem C01_targets_cex (msg : CtxCheck.Str) (h : cfg.emptySeqMsg = some msg) :
     (cpyValid .assign (.tuple []) = true ∧ notAssignable cfg (.tuple []) false = some msg) ∧
